@@ -4,7 +4,7 @@ import pickle
 from .asm import strip_frames
 
 SCALARS_SMALL = [None, True, False, 0, 1, -1, 255, 256, 65535, 65536, 2**31 - 1, 2**31, -(2**31), 2**63,
-                 10**30, 1.5, -0.0, float("inf"), float("nan"), "", "a", "é", "\U0001f600", "a\nb", "q'\"\\", b"", b"ab",
+                 10**30, 1.5, -0.0, float("inf"), float("-inf"), float("nan"), "", "a", "é", "\U0001f600", "a\udc80", "a\nb", "q'\"\\", b"", b"ab",
                  b"\x00\xff"]
 SCALARS_BIG = [2**2048, "x" * 255, "x" * 256, b"x" * 255, b"x" * 256, -(2**63) - 1, 1e300, "123", b"12"]
 
